@@ -356,13 +356,14 @@ func (mr *memRepo) blobMeta(d digest.Digest, locked bool) (blobMeta, error) {
 
 // BlobCreate is used to create a new blob.
 func (mr *memRepo) BlobCreate(opts ...BlobOpt) (BlobCreator, string, error) {
-	return mr.blobCreate(false, opts...)
-}
-
-func (mr *memRepo) blobCreate(locked bool, opts ...BlobOpt) (BlobCreator, string, error) {
 	if *mr.conf.Storage.ReadOnly {
 		return nil, "", types.ErrReadOnly
 	}
+	return mr.blobCreate(false, opts...)
+}
+
+// blobCreate is also used when the index is loaded, a read-only memory store converts referrers in memory.
+func (mr *memRepo) blobCreate(locked bool, opts ...BlobOpt) (BlobCreator, string, error) {
 	conf := blobConfig{
 		algo: digest.Canonical,
 	}
